@@ -6,7 +6,7 @@ The call alphabets, `wstep`/`wrun`, the invariant `WF` and `obsEq` are defined i
 (namespace `Lz4V.Props.C17`).
 -/
 namespace Lz4V.Props.C17
-open Lz4V Lz4V.Go Lz4V.Model Lz4V.Proofs.Life Lz4V.Proofs.LifeR
+open Lz4V Lz4V.Go Lz4V.Model Lz4V.Proofs.Life Lz4V.Proofs.LifeR Lz4V.Proofs.FrameWBits
 
 /-! ## Writer -/
 
@@ -77,22 +77,125 @@ theorem apply_only_new (failAt : Option Nat) (ops : List WOp) (h : (wrun failAt 
     (FrameW.apply (wrun failAt ops) opts).2 ≠ none ∧ (FrameW.apply (wrun failAt ops) opts).1.cfg = (wrun failAt ops).cfg :=
   apply_not_new (wrun_wf failAt ops) h opts
 
-/-- (3) strengthened: outside the new state NO call (not only `Apply`) changes the options -/
-theorem options_fixed (failAt : Option Nat) (ops : List WOp) (h : (wrun failAt ops).st ≠ Gen.stNew) (op : WOp) :
-    (wstep (wrun failAt ops) op).1.cfg = (wrun failAt ops).cfg := cfg_fixed (wrun_wf failAt ops) h op
+/-- (3) strengthened: outside the new state no call other than `Reset` changes the options.  (`Reset` is
+excluded since the `Frame.InitW`/`Frame.Reset` fix: after a legacy frame it puts the configured block-size index
+back into the descriptor flags — see `reset_keeps_options`, `options_fixed_reset_false`.) -/
+theorem options_fixed (failAt : Option Nat) (ops : List WOp) (h : (wrun failAt ops).st ≠ Gen.stNew) (op : WOp)
+    (hop : ∀ f, op ≠ .reset f) :
+    (wstep (wrun failAt ops) op).1.cfg = (wrun failAt ops).cfg := cfg_fixed (wrun_wf failAt ops) h op hop
 
-theorem options_fixed' (w : FrameW.W) (hw : WF w) (h : w.st ≠ Gen.stNew) (op : WOp) :
-    (wstep w op).1.cfg = w.cfg := cfg_fixed hw h op
+theorem options_fixed' (w : FrameW.W) (hw : WF w) (h : w.st ≠ Gen.stNew) (op : WOp) (hop : ∀ f, op ≠ .reset f) :
+    (wstep w op).1.cfg = w.cfg := cfg_fixed hw h op hop
 
+/-- without excluding `Reset` the statement is false now: in the middle of a legacy frame the descriptor flags
+hold the 8 MiB index and `Reset` puts the configured one (4 MiB) back -/
+theorem options_fixed_reset_false :
+    ¬ ∀ (failAt : Option Nat) (ops : List WOp), (wrun failAt ops).st ≠ Gen.stNew → ∀ op : WOp,
+      (wstep (wrun failAt ops) op).1.cfg = (wrun failAt ops).cfg := by
+  intro h
+  have := congrArg (fun c : FrameW.Cfg => FrameW.blockSizeIndex c.flags)
+    (h none [.apply [.legacy true], .flush] (by decide +kernel) (.reset none))
+  revert this
+  decide +kernel
+
+/-- `Reset`: the state machine restarts and nothing stays saved; level, concurrency, legacy flag, content size and
+every flag bit outside the block-size index are unchanged; the block-size index becomes the saved one if there
+is one (`savedIdx ≠ 0`: a legacy frame had replaced it), else it is unchanged.
+(Before the fix of `Frame.InitW`/`Frame.Reset` this read `(FrameW.reset w f).cfg = w.cfg`, which now holds
+exactly when nothing is saved: `reset_keeps_options_unsaved`.) -/
 theorem reset_keeps_options (w : FrameW.W) (f : Option Nat) :
-    (FrameW.reset w f).cfg = w.cfg ∧ (FrameW.reset w f).st = Gen.stNew := ⟨rfl, rfl⟩
+    (FrameW.reset w f).st = Gen.stNew ∧ (FrameW.reset w f).savedIdx = 0 ∧
+    (FrameW.reset w f).cfg.level = w.cfg.level ∧ (FrameW.reset w f).cfg.num = w.cfg.num ∧
+    (FrameW.reset w f).cfg.legacy = w.cfg.legacy ∧ (FrameW.reset w f).cfg.contentSize = w.cfg.contentSize ∧
+    (FrameW.reset w f).cfg.flags &&& ~~~((7 : UInt16) <<< 12) = w.cfg.flags &&& ~~~((7 : UInt16) <<< 12) ∧
+    Gen.flagContentChecksum (FrameW.reset w f).cfg.flags = Gen.flagContentChecksum w.cfg.flags ∧
+    Gen.flagSize (FrameW.reset w f).cfg.flags = Gen.flagSize w.cfg.flags ∧
+    Gen.flagBlockChecksum (FrameW.reset w f).cfg.flags = Gen.flagBlockChecksum w.cfg.flags ∧
+    Gen.flagBlockIndependence (FrameW.reset w f).cfg.flags = Gen.flagBlockIndependence w.cfg.flags ∧
+    Gen.flagVersion (FrameW.reset w f).cfg.flags = Gen.flagVersion w.cfg.flags ∧
+    FrameW.blockSizeIndex (FrameW.reset w f).cfg.flags =
+      (if w.savedIdx ≠ 0 then w.savedIdx % 8 else FrameW.blockSizeIndex w.cfg.flags) := by
+  obtain ⟨h1, h2, h3, h4, h5⟩ := reset_fields w f
+  refine ⟨rfl, rfl, h1, h2, h3, h4, ?_⟩
+  rw [h5]
+  by_cases h : w.savedIdx ≠ 0
+  · rw [if_pos h, if_pos h]
+    exact ⟨bsiSet_mask _ _, bsiSet_flagContentChecksum _ _, bsiSet_flagSize _ _, bsiSet_flagBlockChecksum _ _,
+      bsiSet_flagBlockIndependence _ _, bsiSet_flagVersion _ _, bsi_set_mod _ _⟩
+  · rw [if_neg h, if_neg h]
+    exact ⟨rfl, rfl, rfl, rfl, rfl, rfl, rfl⟩
+
+/-- the saved index of a Writer reached by calls is a valid index (or 0), so `% 8` is the identity there -/
+theorem reset_block_size (w : FrameW.W) (f : Option Nat) (h0 : w.savedIdx ≠ 0) (h8 : w.savedIdx < 8) :
+    FrameW.blockSizeIndex (FrameW.reset w f).cfg.flags = w.savedIdx := by
+  rw [(reset_keeps_options w f).2.2.2.2.2.2.2.2.2.2.2.2, if_pos h0]; omega
+
+/-- with nothing saved (no legacy frame since the last `Reset`) `Reset` keeps the options as they are -/
+theorem reset_keeps_options_unsaved (w : FrameW.W) (f : Option Nat) (h : w.savedIdx = 0) :
+    (FrameW.reset w f).cfg = w.cfg ∧ (FrameW.reset w f).st = Gen.stNew := ⟨reset_cfg_of_saved_zero h f, rfl⟩
+
+/-! ### (3') the block-size option survives legacy frames (the point of the `InitW`/`Reset` fix) -/
+
+/-- a Writer with a valid block-size index and nothing saved starts a frame (legacy or not), then is `Reset`:
+the block-size index is the configured one again -/
+theorem block_size_survives_legacy (w₀ : FrameW.W) (h0 : w₀.savedIdx = 0)
+    (hk : FrameW.blockSizeIndex w₀.cfg.flags ∈ [4, 5, 6, 7]) (f : Option Nat) :
+    FrameW.blockSizeIndex (FrameW.reset (FrameW.init w₀).1 f).cfg.flags = FrameW.blockSizeIndex w₀.cfg.flags :=
+  (bsInv_reset hk (bsInv_init hk (Or.inl ⟨h0, rfl⟩)) f).2
+
+/-- for a legacy frame all the options are back, not only the block size -/
+theorem legacy_frame_keeps_options (w₀ : FrameW.W) (hl : w₀.cfg.legacy = true) (h0 : w₀.savedIdx = 0)
+    (hk : FrameW.blockSizeIndex w₀.cfg.flags ≠ 0) (f : Option Nat) :
+    (FrameW.reset (FrameW.init w₀).1 f).cfg = w₀.cfg := legacy_reset_cfg hl h0 hk f
+
+/-- the invariant behind it: the option `k` is in the flags with nothing saved, or a legacy frame has put index 3
+there and `k` is saved (`BsInv`); every call other than `Apply` preserves it … -/
+theorem block_size_inv_step (k : Nat) (hk : k ∈ [4, 5, 6, 7]) (w : FrameW.W) (h : BsInv k w) (op : WOp)
+    (hop : op.notApply) : BsInv k (wstep w op).1 := bsInv_step hk h op hop
+
+/-- … so after ANY sequence of `Write`/`Flush`/`Close`/`ReadFrom`/`Reset` calls (frames of either format,
+completed or not, failed or not) a `Reset` gives back the configured block-size index -/
+theorem block_size_survives_calls (w₀ : FrameW.W) (h0 : w₀.savedIdx = 0)
+    (hk : FrameW.blockSizeIndex w₀.cfg.flags ∈ [4, 5, 6, 7]) (ops : List WOp) (hops : ∀ op ∈ ops, op.notApply)
+    (f : Option Nat) :
+    FrameW.blockSizeIndex (FrameW.reset (wrunFrom w₀ ops) f).cfg.flags = FrameW.blockSizeIndex w₀.cfg.flags :=
+  (bsInv_reset hk (bsInv_run hk ops (Or.inl ⟨h0, rfl⟩) hops) f).2
+
+/-- the same for a freshly configured Writer (`NewWriter` + `Apply(opts)`, whether `Apply` succeeded or not) -/
+theorem block_size_survives_configured (fa : Option Nat) (opts : List FrameW.Opt) (ops : List WOp)
+    (hops : ∀ op ∈ ops, op.notApply) (f : Option Nat) :
+    let w₀ := (FrameW.apply (FrameW.new fa) opts).1
+    FrameW.blockSizeIndex (FrameW.reset (wrunFrom w₀ ops) f).cfg.flags = FrameW.blockSizeIndex w₀.cfg.flags :=
+  block_size_survives_calls _ (apply_new_fresh fa opts).1 (apply_new_fresh fa opts).2 ops hops f
+
+/-- every Writer reached by calls (including `Apply`) has its block-size option intact: a valid index
+(4…7 = 64 KiB…4 MiB) in the flags, or the legacy index 3 in the flags and the valid one saved -/
+theorem block_size_intact (failAt : Option Nat) (ops : List WOp) :
+    ∃ k ∈ [4, 5, 6, 7], BsInv k (wrun failAt ops) :=
+  wrunFrom_bsInv ops ⟨7, by decide, Or.inl (new_idx failAt)⟩
+
+/-- in the new state — where the next frame's format is still open — nothing is saved and the flags hold a
+valid block-size index: the legacy-only index can no longer leak into a current-format frame header
+(the defect reproduced by `legacyEpisode` below) -/
+theorem new_state_block_size_valid (failAt : Option Nat) (ops : List WOp) (h : (wrun failAt ops).st = Gen.stNew) :
+    (wrun failAt ops).savedIdx = 0 ∧ FrameW.blockSizeIndex (wrun failAt ops).cfg.flags ∈ [4, 5, 6, 7] := by
+  have h0 := wrunFrom_newClean ops (new_wf failAt) (fun _ => rfl) h
+  obtain ⟨k, hk, hb⟩ := block_size_intact failAt ops
+  refine ⟨h0, ?_⟩
+  rcases hb with ⟨_, h2⟩ | ⟨h1, _⟩
+  · rw [h2]; exact hk
+  · have : k = 0 := by rw [← h1]; exact h0
+    subst this
+    exact absurd hk (by decide)
 
 /-! ### (4) Reset ≈ new -/
 
-/-- after `Reset` the Writer is observationally equivalent to a new one with the same options -/
+/-- after `Reset` the Writer is observationally equivalent to a new one with the same (restored:
+`reset_keeps_options`) options; `obsEq` now also relates `savedIdx` (0 on both sides here), which a later
+`Reset` or `init` reads -/
 theorem reset_obsEq (w : FrameW.W) (f : Option Nat) :
-    obsEq (FrameW.reset w f) { FrameW.new f with cfg := w.cfg } :=
-  ⟨reset_wf w f, rfl, rfl, rfl, rfl, fun h => absurd h (by show Gen.stNew ≠ Gen.stWrite; decide)⟩
+    obsEq (FrameW.reset w f) { FrameW.new f with cfg := (FrameW.reset w f).cfg } :=
+  ⟨reset_wf w f, rfl, rfl, rfl, rfl, rfl, fun h => absurd h (by show Gen.stNew ≠ Gen.stWrite; decide)⟩
 
 /-- one call preserves `obsEq` and returns the same values (byte count, source position, error) -/
 theorem obsEq_step (a b : FrameW.W) (h : obsEq a b) (op : WOp) :
@@ -100,7 +203,7 @@ theorem obsEq_step (a b : FrameW.W) (h : obsEq a b) (op : WOp) :
 
 theorem reset_like_new (w : FrameW.W) (f : Option Nat) (ops : List WOp) :
     let a := FrameW.reset w f
-    let b : FrameW.W := { FrameW.new f with cfg := w.cfg }
+    let b : FrameW.W := { FrameW.new f with cfg := (FrameW.reset w f).cfg }
     (ops.foldl (fun s op => (wstep s op).1) a).sink = (ops.foldl (fun s op => (wstep s op).1) b).sink ∧
     wresults a ops = wresults b ops ∧ wresultsFull a ops = wresultsFull b ops ∧
     obsEq (ops.foldl (fun s op => (wstep s op).1) a) (ops.foldl (fun s op => (wstep s op).1) b) := by
@@ -178,31 +281,61 @@ example :
     let w := wrun (some 2) [.write #[1, 2, 3], .flush]
     w.st = Gen.stWrite ∧ w.pending = #[1, 2, 3] ∧
     (wrunFrom (FrameW.reset w none) [.write #[7], .close]).sink.writes =
-      (wrunFrom { FrameW.new none with cfg := w.cfg } [.write #[7], .close]).sink.writes := by
+      (wrunFrom { FrameW.new none with cfg := (FrameW.reset w none).cfg } [.write #[7], .close]).sink.writes := by
   decide +kernel
 
-/-! ### FINDING (real defect, reproduced on the Go code): "options persist across Reset" is too true
+/-! ### REGRESSION (defect found here, reproduced on the Go code, now fixed): legacy frames and the block size
 
-In the new state the options are changed not only by `Apply` but also by `init` (`Frame.InitW`): for a legacy
-frame it overwrites the block-size option with the legacy-only 8 MiB code (index 3) *in the persistent
-descriptor flags*.  The value survives `Reset`, so `Reset` + `Apply(LegacyOption(false))` + `Write` + `Close`
-succeeds without error and emits a current-format frame whose BD byte is `0x30` (block-size code 3, invalid in
-the frame format), which the package's own Reader rejects with `invalid block size`.
-Go reproduction: `w.Apply(LegacyOption(true)); w.Write; w.Close; w.Reset; w.Apply(LegacyOption(false)); w.Write;
-w.Close` gives `04 22 4d 18 64 30 13 03 00 00 80 01 02 03 00 00 00 00 c4 78 9c f5`. -/
+Before the fix, `init` (`Frame.InitW`) of a legacy frame overwrote the block-size option with the legacy-only
+8 MiB code (index 3) *in the persistent descriptor flags*; the value survived `Reset`, so `Reset` +
+`Apply(LegacyOption(false))` + `Write` + `Close` succeeded and emitted a current-format frame whose BD byte was
+`0x30` (block-size code 3, invalid in the frame format), which the package's own Reader rejected with
+`invalid block size`.  Go reproduction: `w.Apply(LegacyOption(true)); w.Write; w.Close; w.Reset;
+w.Apply(LegacyOption(false)); w.Write; w.Close` gave `04 22 4d 18 64 30 13 03 00 00 80 01 02 03 00 00 00 00 c4 78 9c f5`.
+Now `InitW` remembers the configured index (`savedIdx`) and `Frame.Reset` restores it: theorems
+`block_size_survives_legacy` … `new_state_block_size_valid` above; the episode evaluates as follows. -/
 
 def legacyEpisode : List WOp :=
   [.apply [.legacy true], .write #[1, 2, 3], .close, .reset none, .apply [.legacy false], .write #[1, 2, 3], .close]
 
 /- evidence by evaluation (`#guard` runs the compiled model; a kernel `decide` would have to allocate the
-   8 MiB legacy block buffer): every call succeeds, the block-size option has silently become the legacy-only
-   code 3, the header's BD byte is `0x30` (= 48) … -/
+   8 MiB legacy block buffer): every call succeeds; during and after the legacy frame (first three calls) the
+   flags hold index 3 and the configured index 7 is saved (second branch of `BsInv`) … -/
 #guard wresults (FrameW.new none) legacyEpisode = [none, none, none, none, none, none, none]
-#guard FrameW.blockSizeIndex (wrun none legacyEpisode).cfg.flags = 3
+#guard FrameW.blockSizeIndex (wrun none (legacyEpisode.take 3)).cfg.flags = 3
+#guard (wrun none (legacyEpisode.take 3)).savedIdx = 7
+#guard (wrun none (legacyEpisode.take 3)).sink.writes == #[#[2, 33, 76, 24], #[4, 0, 0, 0], #[48, 1, 2, 3]]
+/- … `Reset` puts it back, the second frame's BD byte is `0x70` (= 112, 4 MiB) … -/
+#guard FrameW.blockSizeIndex (wrun none (legacyEpisode.take 4)).cfg.flags = 7
+#guard (wrun none (legacyEpisode.take 4)).savedIdx = 0
+#guard FrameW.blockSizeIndex (wrun none legacyEpisode).cfg.flags = 7
 #guard (wrun none legacyEpisode).sink.writes ==
-  #[#[4, 34, 77, 24, 100, 48, 19], #[3, 0, 0, 128], #[1, 2, 3], #[0, 0, 0, 0, 196, 120, 156, 245]]
-/- … and the Reader of the same package rejects the frame -/
-#guard (FrameR.read (FrameR.new { data := (wrun none legacyEpisode).sink.bytes }) 10).2 == (#[], some Err.badBlockSize)
+  #[#[4, 34, 77, 24, 100, 112, 185], #[3, 0, 0, 128], #[1, 2, 3], #[0, 0, 0, 0, 196, 120, 156, 245]]
+/- … and the Reader of the same package accepts the frame -/
+#guard (FrameR.read (FrameR.new { data := (wrun none legacyEpisode).sink.bytes }) 10).2 == (#[1, 2, 3], some Err.eof)
+
+/-- `block_size_survives_configured` instantiated on the episode's legacy frame (non-vacuity: the hypothesis
+"no `Apply` among the calls" holds, and the configured index is a non-default one, 64 KiB = 4) -/
+example (f : Option Nat) :
+    let w₀ := (FrameW.apply (FrameW.new none) [.blockSize Gen.Block64Kb, .legacy true]).1
+    FrameW.blockSizeIndex (FrameW.reset (wrunFrom w₀ [.write #[1, 2, 3], .close]) f).cfg.flags =
+      FrameW.blockSizeIndex w₀.cfg.flags ∧ FrameW.blockSizeIndex w₀.cfg.flags = 4 :=
+  ⟨block_size_survives_configured none _ _ (by intro op h; simp at h; rcases h with rfl | rfl <;> trivial) f,
+   by decide +kernel⟩
+
+/-- both branches of `BsInv` occur: nothing saved on a new Writer; index 3 + saved 7 once a legacy frame is open
+(`Flush` in the new state starts the frame without buffering anything) -/
+example : BsInv 7 (wrun none []) ∧ (wrun none []).savedIdx = 0 ∧
+    BsInv 7 (wrun none [.apply [.legacy true], .flush]) ∧ (wrun none [.apply [.legacy true], .flush]).savedIdx = 7 :=
+  ⟨Or.inl (by decide +kernel), by decide +kernel, Or.inr (by decide +kernel), by decide +kernel⟩
+
+/-- `reset_keeps_options` where it matters: in the middle of that legacy frame `Reset` changes the block-size
+index from 3 back to 7 and keeps everything else -/
+example :
+    let w := wrun none [.apply [.legacy true], .flush]
+    FrameW.blockSizeIndex w.cfg.flags = 3 ∧ FrameW.blockSizeIndex (FrameW.reset w none).cfg.flags = 7 ∧
+      (FrameW.reset w none).cfg.legacy = true ∧ (FrameW.reset w none).savedIdx = 0 := by
+  decide +kernel
 
 /-- without the legacy episode the same calls give a valid frame (BD byte `0x70`) -/
 example : (wrun none [.write #[1, 2, 3], .close]).sink.writes =
